@@ -99,7 +99,8 @@ def gen_cases(tier, seed):
                 for pre in (11, 12, 14, 22):
                     sched = ([1, 2] * pre)[:2 * pre] + [st] * 9 + [1, 2] * 3 + [cl] * 4
                     toks = render("plain", progs, sched + drain(progs))
-                    cs.append(Case("c%d" % (len(cs) + 1), "conc", toks, "stalled-transport-" + cause, True, {"ntasks": len(progs)}, model=False))
+                    # off = 0 is the model's CStall (Model/Conc.v: `stalled`): the model is run on the same schedule
+                    cs.append(Case("c%d" % (len(cs) + 1), "conc", toks, "stalled-transport-" + cause, True, {"ntasks": len(progs)}, model=(off == 0)))
     # random
     n = 600 if tier == "quick" else 15000
     for i in range(n):
